@@ -4,7 +4,8 @@ Vocabulary of the AES layer (aes.rs) for the LAYER mode of rs2lean: the external
 is UNINTERPRETED, exactly as in `Model/Aes.lean` (`AesPrims`).
 
 Trusted vocabulary:
-  * `pbkdf2::pbkdf2::<Hmac<Sha1>>`, the AES block function and HMAC-SHA1 are the fields of the class
+  * `pbkdf2::pbkdf2::<Hmac<Sha1>>` (a function of password, salt, the number of rounds and the LENGTH of the
+    output buffer, which it fills), the AES block function and HMAC-SHA1 are the fields of the class
     `AesPrims` (arbitrary functions).
   * `Hmac<Sha1>` is its key and the message fed so far: `update` appends, `finalize_reset` returns the
     HMAC of the message and empties it, `new_from_slice` accepts every key length (so its `unwrap()`
@@ -23,12 +24,16 @@ Trusted vocabulary:
 namespace Rs
 
 class AesPrims where
-  /-- `pbkdf2::<Hmac<Sha1>>(password, salt, 1000, out)` with `out.len() = len` -/
-  pbkdf2 : (pw salt : Bytes) → (len : Nat) → Bytes
+  /-- `pbkdf2::<Hmac<Sha1>>(password, salt, rounds, out)` with `out.len() = len` -/
+  pbkdf2 : (pw salt : Bytes) → (rounds : UInt32) → (len : Nat) → Bytes
   /-- `encrypt_block` on a 16-byte block -/
   block : (key inp : Bytes) → Bytes
   /-- HMAC-SHA1 of a whole message -/
   hmac : (key msg : Bytes) → Bytes
+
+/-- `pbkdf2::pbkdf2::<Hmac<Sha1>>(password, salt, rounds, &mut out)`: fills the whole of `out` -/
+def pbkdf2 [AesPrims] (pw salt : Bytes) (rounds : UInt32) (out : Bytes) : Bytes :=
+  AesPrims.pbkdf2 pw salt rounds out.length
 
 /-- `Box<dyn AesCipher>` -/
 class AesDyn where
@@ -72,7 +77,8 @@ structure Hmac where
   msg : Bytes
   deriving DecidableEq, Repr
 
-def Hmac.new_from_slice (key : Bytes) : Hmac := ⟨key, []⟩
+/-- `Hmac::<Sha1>::new_from_slice(key)`: `Ok` for every key length -/
+def Hmac.new_from_slice (key : Bytes) : Option Hmac := some ⟨key, []⟩
 def Hmac.update (h : Hmac) (bs : Bytes) : Hmac := { h with msg := h.msg ++ bs }
 /-- `hmac.finalize_reset().into_bytes()` -/
 def Hmac.finalize_reset [AesPrims] (h : Hmac) : Bytes × Hmac := (AesPrims.hmac h.key h.msg, { h with msg := [] })
